@@ -390,9 +390,9 @@ fn main() {
             ck.assume("element depth is counted in the input tree (an ignored element's children count one level deeper), as the sanitizer documents");
             ck.assume("token-level view applied only when no raw-text or foreign-content element may survive (always in strict/compat mode without element additions)");
             ck.exhaustive("uri_attribute_companions", true, attr_order_space, attr_order_oracle);
-            let n = ck.n(40_000, 2_000_000);
+            let n = ck.n(120_000, 2_000_000);
             ck.prop("modes", n, || san_case(0), c14_oracle);
-            let n = ck.n(30_000, 1_500_000);
+            let n = ck.n(100_000, 1_500_000);
             ck.prop("builder_configs", n, || san_case(10), c14_oracle);
             for cls in ["something_removed", "something_kept", "depth_gt_100", "foreign_ns", "deprecated", "reply_fallback_removed", "token_view_applied"] {
                 ck.floor("modes", cls, 300);
